@@ -31,7 +31,7 @@ ENCODABLE = z3.Star(z3.Union(z3.Range(chr(0), chr(0xD7FF)), z3.Range(chr(0xDC80)
 LONE = ["'\\ud800'", "'a\\udfffb'", "'\\udbff\\udc00'", "'caf\\udce9 \\ud83d'"]
 EXTRA_VALUES = {"string": LONE, "wstring": LONE[:1], "uri": LONE[:1], "stringlist": ["['x', '\\ud800']"], "dynamic": LONE[:1], "net.ipaddress": ["'255.255.255.255'", "'0.0.0.0'", "'::ffff:1.2.3.4'", "'2001:db8::1'"], "float": ["-0.0", "float('inf')", "5e-324"], "boolean": ["True", "False"],
                 "path": ["'relative/p'", "'C:\\\\Users\\\\x'", "'/'"], "datetime": ["DT(1, 1, 1, tzinfo=TZ(TD(0)))", "DT(9999, 12, 31, 23, 59, 59, 999999, tzinfo=TZ(TD(0)))", "DT(2021, 10, 31, 2, 30, tzinfo=TZ(TD(hours=-3, minutes=-30)))", "DT(2020, 1, 2, 3, 4, 5, 6, tzinfo=TZ(TD(minutes=19, seconds=32)))", "DT(1900, 1, 1, tzinfo=TZ(-TD(hours=4, minutes=56, seconds=2)))"],
-                "bytes": ["bytes(range(256))"], "command": ["'x'"], "dictlist": ["[{'a': [1, 2]}]", "[{'a': {'b': 1}, 'c': None}]", "[{b'k': 1, 'k': 2}]", "[{b'\\xff': b'v'}]"], "digest": ["('d41d8cd98f00b204e9800998ecf8427e', 'da39a3ee5e6b4b0d3255bfef95601890afd80709', 'e3b0c44298fc1c149afbf4c8996fb92427ae41e4649b934ca495991b7852b855')"]}
+                "bytes": ["bytes(range(256))"], "command": ["'x'"], "dictlist": ["[{'a': [1, 2]}]", "[{'a': {'b': 1}, 'c': None}]", "[{b'k': 1, 'k': 2}]", "[{b'\\xff': b'v'}]", "[{1: 'a', 2.5: None, True: 'b'}]", "[{-7: {2: 'nested'}}]"], "digest": ["('d41d8cd98f00b204e9800998ecf8427e', 'da39a3ee5e6b4b0d3255bfef95601890afd80709', 'e3b0c44298fc1c149afbf4c8996fb92427ae41e4649b934ca495991b7852b855')"]}
 
 
 def pyvalue(src):
@@ -163,6 +163,15 @@ def build(tier="quick", seed=0):
         return [deep_obs(it, r)], roundtrip([r])
 
     add("C01.metadata[_source, _classification, _generated, _version]", th_meta, lambda w: {"call": "c01_meta", "args": {"x": w.get("x", 0), "s": w.get("s", ""), "w": w.get("w", "")}}, wit=lambda m_, p: {"x": model_value(m_, x), "s": model_value(m_, sv), "w": model_value(m_, sw)})
+
+    def th_meta_unset():
+        # _generated set to None after construction ("unset"): unset stays unset
+        D = it.call(RD, ["c01/meta", [("varint", "n")]], {})
+        r = it.call(D, [], {"n": SInt(x)})
+        it.setattr_(r, "_generated", None)
+        return [deep_obs(it, r)], roundtrip([r])
+
+    add("C01.metadata[_generated unset (None) after construction]", th_meta_unset, lambda w: {"call": "c01_meta_unset", "args": {"x": w.get("x", 0)}}, wit=lambda m_, p: {"x": model_value(m_, x)})
 
     def th_widths():
         out = []
